@@ -28,9 +28,11 @@ Qed.
 Lemma tnkey_eqb_eq x y : tnkey_eqb x y = true -> x = y.
 Proof.
   destruct x as [[[[n q] u] i] a], y as [[[[n' q'] u'] i'] a']. cbn. intros H.
-  repeat (apply andb_true_iff in H; destruct H as [H ?]).
-  repeat match goal with E : (_ =? _) = true |- _ => apply Z.eqb_eq in E end.
-  apply Z.eqb_eq in H. apply Bool.eqb_prop in H2. congruence.
+  repeat match goal with
+  | E : _ && _ = true |- _ => apply andb_true_iff in E; destruct E
+  | E : (_ =? _) = true |- _ => apply Z.eqb_eq in E
+  | E : Bool.eqb _ _ = true |- _ => apply Bool.eqb_prop in E
+  end; congruence.
 Qed.
 
 Lemma ozz_eqb_eq x y : ozz_eqb x y = true -> x = y.
